@@ -185,5 +185,59 @@ func sweep(g *gen) []*Script {
 			}
 		}
 	}
+	// the server stops reading while the client publishes (RECORD) or feeds a back channel (PLAY): the
+	// write queue fills, a write is about to time out, and Pause / Record / Close come at that moment
+	for _, wtms := range []int{300, 500} {
+		for _, pct := range []int{50, 90, 100, 110} {
+			for _, then := range []string{"pause", "again", "close"} {
+				for _, mode := range []string{"record", "back"} {
+					sc := &Script{Name: "sweep-stopread-" + mode, SmallBuf: true, Cfg: Cfg{Proto: 3, RTms: 400, WTms: wtms}}
+					stallFor := []Action{{Kind: "resp"}, {Kind: "sleep", Ms: 3 * wtms}}
+					if mode == "record" {
+						sc.Medias = []MediaSpec{{Control: "trackID=0", Codec: "h264"}}
+						sc.Prog = []Call{{Api: "announce"}, {Api: "setup", Media: 0}, {Api: "record"}, {Api: "flood", Media: 0, Pct: pct}}
+						sc.React = []Reaction{{M: "RECORD", N: 1, Acts: stallFor, Abs: "?"}}
+					} else {
+						sc.Cfg.BackCh = true
+						sc.Medias = []MediaSpec{{Control: "trackID=0", Codec: "h264"}, {Control: "trackID=1", Codec: "pcmu", Back: true}}
+						sc.Prog = []Call{{Api: "describe"}, {Api: "setup", Media: 0}, {Api: "setup", Media: 1}, {Api: "play"}, {Api: "flood", Media: 1, Pct: pct}}
+						sc.React = []Reaction{{M: "PLAY", N: 1, Acts: stallFor, Abs: "?"}}
+					}
+					switch then {
+					case "pause":
+						sc.Prog = append(sc.Prog, Call{Api: "pause"}, Call{Api: "options"})
+					case "again":
+						sc.Prog = append(sc.Prog, Call{Api: mode2api(mode)}, Call{Api: "pause"})
+					}
+					out = append(out, sc)
+				}
+			}
+		}
+	}
+	// one connection of the (tunnel) handshake stalls at a given stage
+	for _, m := range []struct {
+		tunnel int
+		secure bool
+		conns  []int
+	}{{1, false, []int{1, 2}}, {1, true, []int{1, 2}}, {2, false, []int{1}}, {2, true, []int{1}}, {0, true, []int{1}}, {0, false, []int{1}}} {
+		for _, cn := range m.conns {
+			for _, st := range []string{"tcp", "tlsmid", "nohttp", "partial"} {
+				if st == "tlsmid" && !m.secure {
+					continue
+				}
+				sc := &Script{Name: "sweep-stall-" + st, StallConn: cn, StallStage: st,
+					Cfg: Cfg{Proto: 3, Tunnel: m.tunnel, Secure: m.secure, RTms: g.rt}, Medias: []MediaSpec{{Control: "trackID=0", Codec: "h264"}},
+					Prog: []Call{{Api: "options"}, {Api: "describe"}, {Api: "setup", Media: 0}, {Api: "play"}}}
+				out = append(out, sc)
+			}
+		}
+	}
 	return out
+}
+
+func mode2api(mode string) string {
+	if mode == "record" {
+		return "record"
+	}
+	return "play"
 }
